@@ -9,7 +9,7 @@ CONSTANTS RowSet, ColSet, ValSet, MaxSparse, MaxOps
 
 VARIABLES abs, con, sub, csub, pan, dev, hist
 vars == <<abs, con, sub, csub, pan, dev, hist>>
-view == <<abs, con, sub, csub, pan, dev>>          \* hist is observation only
+view == <<abs, con, sub, csub, pan, dev, hist = <<>>>>   \* hist is observation only, except that "no operation yet" differs from "emptied"
 
 PosSet == RowSet \X ColSet
 Corners == {ab \in PosSet \X PosSet : LeqP(ab[1], ab[2])}
